@@ -10,7 +10,7 @@ from typing import Dict, List, Optional, Set, Tuple
 from oqv.astutil import branch_context, call_name, enclosing_chain, method_call
 from oqv.cfg import CFG
 from oqv.dataflow import DefUse, expand
-from oqv.model import AnalysisError, Program, Unit, dotted, norm, walk_local
+from oqv.model import AnalysisError, Program, Unit, dotted, norm, walk_local, kw_of
 from oqv.report import Check
 
 BACKEND = "backends.pt_tebd_backend"
@@ -535,7 +535,7 @@ def i5_i6(prog: Program, chk: Check) -> None:
                 order = t.comparators[0].value
         if order is None:
             raise AnalysisError("I6: a TebdPropagator is built outside an `order == k` branch")
-        lst = next((k.value for k in x.keywords if k.arg == "gate_layers"), None)
+        lst = kw_of(x).get("gate_layers", None)
         if not isinstance(lst, (ast.List, ast.Tuple)):
             raise AnalysisError("I6: gate_layers of TebdPropagator is not a literal sequence")
         seq, dts = [], set()
@@ -552,8 +552,10 @@ def i5_i6(prog: Program, chk: Check) -> None:
             if not (isinstance(src, ast.Call) and call_name(src) == "compute_trotter_layers"):
                 raise AnalysisError(f"I6: gate layer `{norm(e)}` does not come from "
                                     f"compute_trotter_layers")
-            dts.add(norm(next(k.value for k in src.keywords if k.arg == "dt")))
-            dt_e = next(k.value for k in src.keywords if k.arg == "dt")
+            dt_e = kw_of(src).get("dt")
+            if dt_e is None:
+                raise AnalysisError("I6: compute_trotter_layers called without a dt argument")
+            dts.add(norm(dt_e))
         if len(dts) != 1:
             raise AnalysisError(f"I6: layers of order {order} use different time steps {dts}")
         branches[order] = (dt_e, seq)
@@ -577,7 +579,7 @@ def i5_i6(prog: Program, chk: Check) -> None:
     pi = prog.unit("pt_tebd:PtTebd.initialize")
     c = [x for x in walk_local(pi.node) if isinstance(x, ast.Call)
          and call_name(x) == "compute_tebd_propagator"]
-    ts = next((k.value for k in c[0].keywords if k.arg == "time_step"), None) if c else None
+    ts = kw_of(c[0]).get("time_step", None) if c else None
     ok = ts is not None and norm(ts) in ("self._parameters.dt / 2.0", "self._parameters.dt / 2")
     cs = prog.unit("pt_tebd:PtTebd.compute_step")
     loops = sum(1 for x in walk_local(cs.node) if isinstance(x, ast.For)
